@@ -33,7 +33,7 @@ TRACE = []
 
 
 def bounds(tier):
-    return {"nc": 4 if tier == "quick" else 5, "ns": 2}
+    return {"nc": 4 if tier == "quick" else 6, "ns": 2}
 
 
 # ----------------------------------------------------------------------------- uninterpreted primitives
